@@ -2,3 +2,7 @@
 (build (files (f 100 0 ()) (f 1 1 (0))) (lib 100 1) (w 2) (log (s 1) (s 100) (b 1) (e 1) (b 100) (e 100) (l 1 100)) (delays 30 0) (mode touch))
 ; diamond with a slow root, three workers, module name = stem everywhere
 (build (files (f 0 0 ()) (f 1 1 (0)) (f 2 2 (0)) (f 3 3 (1 2))) (lib 0 1 2 3) (w 3) (log (s 0) (b 0) (e 0) (s 2) (s 1) (b 2) (b 1) (e 2) (e 1) (s 3) (b 3) (e 3) (l 0 1 2 3)) (delays 30 5 5 0) (mode touch))
+; taskless-first family (seed break-on-taskless-dependency): external module n52 listed before slow in-tree dependencies
+(build (files (f 3 3 (1 0 2)) (f 2 2 (52 0 1)) (f 0 0 ()) (f 1 1 (0))) (lib 0 1 2 3) (w 4) (log (s 0) (b 0) (e 0) (s 1) (b 1) (e 1) (s 2) (b 2) (e 2) (s 3) (b 3) (e 3) (l 0 1 2 3)) (delays 0 50 40 40) (mode touch))
+; incremental build (force=False): up-to-date n1 listed before the slow rebuilt n0
+(build (files (f 2 2 (1 0)) (f 1 1 (0)) (f 0 0 ()) (f 4 4 (1)) (f 3 3 (1 2))) (lib 0 1 2 3 4) (w 2) (log (s 0) (b 0) (e 0) (s 2) (s 4) (b 2) (e 2) (s 3) (b 3) (e 3) (b 4) (e 4) (l 0 1 2 3 4)) (delays 30 0 30 0 0) (mode touch) (uptodate 1))
